@@ -51,6 +51,7 @@ def run(chk: Check) -> None:
     run_relative_import_ids(chk, ix)
     run_stat_compared_for_equality(chk, ix)
     run_typeinfo_snapshot_flags(chk, ix)
+    run_relative_imports_resolved_against_module(chk, ix)
 
     r1 = chk.rule("R03.1", "reprocess_nodes performs snapshot < clear < strip < analyse < merge < check < snapshot < compare < update_deps on every normal path, returns the compared triggers, and the propagation loop re-queues error targets and resets protocol caches first", floor=12)
     rp = ix.func("mypy.server.update.reprocess_nodes")
@@ -822,3 +823,38 @@ def run_typeinfo_snapshot_flags(chk: Check, ix) -> None:
             r.ok(key, sd.loc(branch))
         else:
             r.violation(key, sd.loc(branch), f"snapshot_definition does not read node.{fl}: when only this flag changes (e.g. `@final` added to a class, `@runtime_checkable` removed from a protocol) the class's snapshot is unchanged, no trigger fires and importers keep their old diagnostics in the daemon")
+
+
+MODULE_ID_IDIOMS = ("id", "cur_mod_id", "module_name", "current_module_id()", "fullname")
+
+
+def run_relative_imports_resolved_against_module(chk: Check, ix) -> None:
+    """R03.18: a relative import is resolved against the id of the module that contains it."""
+    r18 = chk.rule("R03.18", "util.correct_relative_import(cur_mod_id, relative, target, is_init) strips `relative` components from cur_mod_id; the daemon keys much of its state by fine-grained *target* names (pkg.mod.func, pkg.mod.Class.method), which are one or two components longer than the module id. At every call in mypy/server/ the first argument is a module id in the repository's own spelling, enumerated from all call sites in mypy/ (`<state>.id`, `self.cur_mod_id`, `self.scope.current_module_id()`, `self.module_name`, `<tree>.fullname`), directly or through one local assignment; a loop variable over dependency targets is not", floor=3)
+    n = 0
+    vocab_seen = set()
+    for mn, m in sorted(ix.modules.items()):
+        if not mn.startswith("mypy.") or mn.startswith("mypy.test"):
+            continue
+        for f in list(m.functions.values()) + [mm for c in m.classes.values() for mm in c.methods.values()]:
+            for c in ast.walk(f.node):
+                if not (isinstance(c, ast.Call) and call_name(c) == "correct_relative_import" and len(c.args) >= 3):
+                    continue
+                a0 = c.args[0]
+                if isinstance(a0, ast.Name):
+                    defs = [x.value for x in ast.walk(f.node) if isinstance(x, ast.Assign) and len(x.targets) == 1 and isinstance(x.targets[0], ast.Name) and x.targets[0].id == a0.id]
+                    if len(defs) == 1:
+                        a0 = defs[0]
+                last = norm(a0).rsplit(".", 1)[-1]
+                is_module_id = last in MODULE_ID_IDIOMS and not isinstance(a0, ast.Name)
+                vocab_seen.add(last)
+                if not mn.startswith("mypy.server."):
+                    continue
+                n += 1
+                key = f"{mn.removeprefix('mypy.')}.{f.name}: correct_relative_import resolves against the containing module's id"
+                if is_module_id:
+                    r18.ok(key, f.loc(c))
+                else:
+                    r18.violation(key, f.loc(c), f"the first argument is `{norm(c.args[0])}`, not a module id ({', '.join(MODULE_ID_IDIOMS)}): for a target inside a function or class (`pkg.app.run`) `from . import x` resolves to `pkg.app.x`, so the comparison with the module that appeared or changed fails and the importer is not refreshed")
+    if n < 3:
+        raise AnalysisError(f"only {n} calls of correct_relative_import found in mypy/server/ (expected update.refresh_suppressed_submodules and two in deps.py)")
